@@ -22,11 +22,14 @@
      AggKeepFirst  also allowed: keep the stored one and return nil (either repair satisfies the statement);
      AggReplace    also allowed: overwrite it and return nil  -- the code as it is (named deviation AggReplace). *)
 EXTENDS Integers, Sequences, FiniteSets, TLC
-CONSTANTS AggReplace, AggKeepFirst
+CONSTANTS AggReplace, AggKeepFirst,
+          EarlyAdd      \* TRUE: Store asks the deadliner BEFORE it takes db.mu (a defect, only used as a control:
+                        \* the expiry test and the write are then two critical sections); FALSE: the required design
 
 VARIABLES db,       \* the five maps
           q,        \* queries: id -> [st, kind, key, resp, cx]; st: called | wait | ready | done
-          dl,       \* scripted deadliner: [exp, sch: sets of duties; ch: sequence of duties not yet drained]
+          dl,       \* scripted deadliner: [exp, sch: sets of duties; ch: sequence of duties not yet drained;
+                    \*   pre: Stores that have their Add answer but not yet the mutex (always {} unless EarlyAdd)]
           lk,       \* db.mu as far as it is visible: held by a Store that is in its drain loop
           answers,  \* history: [kind, key, c] returned by Await*
           last      \* history: what the most recent critical section did
@@ -38,7 +41,7 @@ Nil == [nil |-> TRUE]
 Free == [held |-> FALSE]
 Empty == [x \in {} |-> Nil]
 Init == /\ db = [att |-> Empty, pk |-> Empty, pro |-> Empty, agg |-> Empty, con |-> Empty]
-        /\ q = Empty /\ dl = [exp |-> {}, sch |-> {}, ch |-> <<>>] /\ lk = Free /\ answers = {}
+        /\ q = Empty /\ dl = [exp |-> {}, sch |-> {}, ch |-> <<>>, pre |-> {}] /\ lk = Free /\ answers = {}
         /\ last = [op |-> "init", ok |-> FALSE, resolved |-> FALSE, kind |-> "-", st |-> "-", changed |-> FALSE]
 
 Map(D, kind) == CASE kind = "att" -> D.att [] kind = "pro" -> D.pro [] kind = "agg" -> D.agg [] OTHER -> D.con
@@ -111,18 +114,27 @@ Mk(op, ok, res, kind, st, ch) == [op |-> op, ok |-> ok, resolved |-> res, kind |
 ---------------------------------------------------------------------------------------------------
 (* Store, first part: deadliner.Add, the loop over the set, resolve*QueriesUnsafe.  On an error the mutex is
    released immediately (no resolve: PartialStoreNoResolve, no drain); otherwise the drain loop follows. *)
-StoreBegin(o, duty, E) ==
-  /\ ~lk.held
-  /\ LET st == DlStatus(duty) IN
-     /\ dl' = [dl EXCEPT !.sch = IF st = "Scheduled" THEN @ \cup {duty} ELSE @]
-     /\ UNCHANGED answers
-     /\ IF st # "Scheduled" \/ duty.type \notin Kinds \/ (duty.type = "pro" /\ Cardinality(E) > 1)
-          THEN UNCHANGED <<db, q, lk>> /\ last' = Mk("store", FALSE, FALSE, duty.type, st, FALSE)
-          ELSE \E r \in StoreOutcomes(db, duty.type, E) :
-                 /\ db' = r[1]
-                 /\ IF r[2] THEN q' = Resolve(duty.type, r[1], q) /\ lk' = [held |-> TRUE, op |-> o]
-                            ELSE UNCHANGED <<q, lk>>
-                 /\ last' = Mk("store", r[2], r[2], duty.type, st, r[1] # db)
+StoreWrite(o, duty, E, st) ==              \* everything after the Add answer st
+  /\ ~lk.held /\ UNCHANGED answers
+  /\ IF st # "Scheduled" \/ duty.type \notin Kinds \/ (duty.type = "pro" /\ Cardinality(E) > 1)
+       THEN UNCHANGED <<db, q, lk>> /\ last' = Mk("store", FALSE, FALSE, duty.type, st, FALSE)
+       ELSE \E r \in StoreOutcomes(db, duty.type, E) :
+              /\ db' = r[1]
+              /\ IF r[2] THEN q' = Resolve(duty.type, r[1], q) /\ lk' = [held |-> TRUE, op |-> o]
+                         ELSE UNCHANGED <<q, lk>>
+              /\ last' = Mk("store", r[2], r[2], duty.type, st, r[1] # db)
+StoreBegin(o, duty, E) ==                  \* the required design: Add is answered under the mutex
+  /\ StoreWrite(o, duty, E, DlStatus(duty))
+  /\ dl' = [dl EXCEPT !.sch = IF DlStatus(duty) = "Scheduled" THEN @ \cup {duty} ELSE @]
+\* control only (EarlyAdd): Add outside the mutex, the write in a later critical section
+StoreAddEarly(o, duty) ==
+  /\ EarlyAdd /\ \A p \in dl.pre : p.o # o
+  /\ dl' = [dl EXCEPT !.sch = IF DlStatus(duty) = "Scheduled" THEN @ \cup {duty} ELSE @,
+                      !.pre = @ \cup {[o |-> o, duty |-> duty, st |-> DlStatus(duty)]}]
+  /\ UNCHANGED <<db, q, lk, answers, last>>
+StoreWriteLate(o, E) ==
+  /\ EarlyAdd /\ \E p \in dl.pre : /\ p.o = o /\ StoreWrite(o, p.duty, E, p.st)
+                                   /\ dl' = [dl EXCEPT !.pre = @ \ {p}]
 \* one iteration of "Delete all expired duties": a duty is waiting in deadliner.C()
 DrainOne == /\ lk.held /\ dl.ch # <<>>
             /\ db' = Delete(db, Head(dl.ch)) /\ dl' = [dl EXCEPT !.ch = Tail(@)]
@@ -154,8 +166,8 @@ Cancel(i) == /\ i \in DOMAIN q /\ q' = [q EXCEPT ![i].cx = TRUE]
              /\ UNCHANGED <<db, dl, lk, answers, last>>
 \* the scripted deadliner reports the duty: from now on Add answers Expired; it is put on C() if it was scheduled
 Expire(d) == /\ d \notin dl.exp /\ d.type \in Kinds
-             /\ dl' = [exp |-> dl.exp \cup {d}, sch |-> dl.sch \ {d},
-                       ch |-> IF d \in dl.sch THEN Append(dl.ch, d) ELSE dl.ch]
+             /\ dl' = [dl EXCEPT !.exp = @ \cup {d}, !.sch = @ \ {d},
+                                 !.ch = IF d \in dl.sch THEN Append(@, d) ELSE @]
              /\ UNCHANGED <<db, q, lk, answers, last>>
 \* PubKeyByAttestation (a read under the mutex)
 PubKeyAnswer(k) == IF k \in DOMAIN db.pk THEN db.pk[k] ELSE "notfound"
@@ -187,6 +199,10 @@ OnlyStoredStep == \A i \in DOMAIN q : (i \in DOMAIN q' /\ q[i].st # "ready" /\ q
 OnlyStored == [][OnlyStoredStep]_vars
 \* a Store for an expired or exempt duty fails and changes nothing
 ExpiredRefused == (last.op = "store" /\ last.st # "Scheduled") => (~last.ok /\ ~last.changed)
+\* nothing is stored for a duty that has expired and is no longer waiting on C() to be trimmed (it has been drained,
+\* or it was never scheduled): its data were deleted and every later Store of it is refused
+NoData(D, d) == Delete(D, d) = D
+ExpiredGone == \A d \in dl.exp : (d.type \in Kinds /\ \A i \in DOMAIN dl.ch : dl.ch[i] # d) => NoData(db, d)
 \* after a successful Store, and after an Await* registration, no waiting query of that kind has its key stored
 Prompt == last.resolved => \A i \in DOMAIN q : (q[i].st = "wait" /\ q[i].kind = last.kind) =>
                                                q[i].key \notin DOMAIN Map(db, last.kind)
@@ -196,5 +212,5 @@ AttIndexed == \A k \in DOMAIN db.att : \E p \in DOMAIN db.pk : p.slot = k.slot /
 TypeOK == /\ lk.held => (last.op \in {"store", "drain"})
           /\ \A i \in DOMAIN q : q[i].st \in {"called", "wait", "ready", "done"}
           /\ \A i \in DOMAIN q : (q[i].st = "ready") => q[i].resp # Nil
-Safety == UniquePerKey /\ AnswerKeyed /\ ExpiredRefused /\ Prompt /\ AttIndexed /\ TypeOK
+Safety == UniquePerKey /\ AnswerKeyed /\ ExpiredRefused /\ ExpiredGone /\ Prompt /\ AttIndexed /\ TypeOK
 ====
